@@ -17,7 +17,7 @@ INFO = {
 SIDE_FIELDS = {"asset": [(BALANCE, "asset_shares"), (BANK, "total_asset_shares")], "liability": [(BALANCE, "liability_shares"), (BANK, "total_liability_shares")]}
 
 
-def run(ctx):
+def _run(ctx):
     prog = ctx.prog
     wrappers = [f for f in prog.fns.values() if (f.info.get("self_adt") or "").endswith("BankAccountWrapper") and f.info["crate"] == "marginfi"]
     resetters = [k for k, kinds in writers_of(prog, BALANCE, "*") if "assign" in kinds]
@@ -159,3 +159,12 @@ def run(ctx):
             ctx.inst("C03.R4", "pre-fee/spl-wrapper", pv2.has_call(prog, {"key": f.key}) and 2 in pv2.params, "the SPL wrapper returns calculate_pre_fee_amount(epoch fee, amount) or the amount itself", A._pvs(pv2), f2.loc(f2.raw["span"]))
     else:
         ctx.missing("C03.R4", "calculate_pre_fee_amount / ceil_div")
+
+
+def run(ctx):
+    from .kernels import check_kernels
+    try:
+        _run(ctx)
+    finally:
+        # numeric kernels this property's formulas rest on, pinned as canonical expression trees
+        check_kernels(ctx, "C03.K", ['get_asset_amount', 'get_liability_amount', 'get_asset_shares', 'get_liability_shares', 'pre-fee-amount', 'post-fee-deposit'])
